@@ -764,7 +764,14 @@ func generate(r *hx.Rng) []*kase {
 		second.Entries = ents
 		g.last += uint64(len(ents))
 		third := g.app(r, g.last, g.term, 1, func(t, ix uint64) raftpb.Entry { return genEntry(r, t, ix) })
-		addSeq("v2", local, remote, []raftpb.Message{first, second, third}, false)
+		// ... and re-sends stepping back by 1, 2, 3 entries behind the big frame (the leader probing again): each
+		// must go out as a full frame because the cursor advanced over EVERY entry of the compact frame
+		seq := []raftpb.Message{first, second}
+		for k := uint64(1); k <= 3 && k <= uint64(len(ents)); k++ {
+			seq = append(seq, g.app(r, g.last-k, g.term, 0, nil))
+		}
+		seq = append(seq, third)
+		addSeq("v2", local, remote, seq, false)
 
 		// full MsgApp frame whose Message.Size() is exactly 2^20-1 / 2^20 / 2^20+1
 		target := sizes[r.Pick(3)]
